@@ -533,6 +533,22 @@ example :
     refsChecked strWorld s [] = [⟨"secret".toList, "cpu".toList⟩, ⟨"default".toList, "mem".toList⟩] := by
   decide +kernel
 
+/-- gaps of the regenerated denylist (breaks by design once the names are added): DuckDB's `query('<sql>')`
+runs SQL handed over inside a string literal, `parquet_full_metadata` reads parquet footers + statistics -/
+theorem C14_denylist_gap_witness :
+    "query".toList ∉ denylist ∧ "query_table".toList ∉ denylist ∧ "parquet_full_metadata".toList ∉ denylist ∧
+    acceptedTok [.word "select".toList, .other '*', .word "from".toList, .word "query".toList, .lparen,
+                 .str "SELECT canary FROM parquet_scan('/r/secret/cpu/x.parquet')".toList, .rparen] = true ∧
+    acceptedTok [.word "select".toList, .other '*', .word "from".toList, .word "parquet_full_metadata".toList, .lparen,
+                 .str "/r/secret/cpu/x.parquet".toList, .rparen] = true := by
+  decide
+
+/-- a blank DuckDB accepts but RE2's `\\s` does not (U+00A0) between the reader name and `(` -/
+theorem C14_nbsp_witness :
+    let s := "SELECT canary FROM read_parquet\u00a0('/r/secret/cpu/x.parquet')".toList
+    inK s [] = false ∧ validate s = .ok ∧ refsChecked strWorld s [] = [] := by
+  decide +kernel
+
 /-! ## composition -/
 
 /-- **C14_partial** (the property on the decidable lexical class `inK`, compositional).
